@@ -32,7 +32,7 @@ type c09Batch struct {
 	Random   int
 }
 
-var c09Retry = []string{"busy", "tmo", "garbage:noise", "garbage:authmsg", "badsig"}
+var c09Retry = []string{"busy", "tmo", "garbage:noise", "garbage:authmsg", "badsig", "stray:othercmd", "unauth", "othersid"}
 
 // c09Scripts lists every per-command outcome sequence: up to d retry outcomes,
 // optionally ending in a lost reply (terminal inside a session); a final valid
@@ -74,7 +74,7 @@ func init() {
 
 func c09Gen(tier string, seed int64) []ev.Case {
 	var cs []ev.Case
-	plan := [][2]int{{1, 4}, {2, 2}, {3, 1}}
+	plan := [][2]int{{1, 3}, {2, 2}, {3, 1}}
 	nRandom := 40
 	if tier == "thorough" {
 		plan = [][2]int{{1, 5}, {2, 3}, {3, 2}}
@@ -99,6 +99,7 @@ func c09Gen(tier string, seed int64) []ev.Case {
 		gd = 5
 	}
 	cs = append(cs, ev.MkCase("batch", c09Batch{H: -1, D: gd, Seed: seed}))
+	cs = append(cs, ev.MkCase("batch", c09Batch{H: -2, D: gd, Seed: seed}))
 	return cs
 }
 
@@ -114,13 +115,13 @@ func c09Exec(run *ev.Run, c ev.Case) {
 		if b.Random > 0 {
 			r := rng(b.Seed, "c09random")
 			h := c09Hist{Suite: r.Intn(9)}
-			kinds := []string{"devid", "authcaps", "chassis", "raw", "serfail", "sl-authcaps", "sl-guid"}
+			kinds := []string{"devid", "authcaps", "chassis", "raw", "serfail", "sl-authcaps", "sl-guid", "sl-authcaps", "sl-newsession"}
 			for i := 0; i < b.Random; i++ {
 				k := kinds[r.Intn(len(kinds))]
 				var sc []string
 				for n := r.Intn(4); n > 0; n-- {
 					if strings.HasPrefix(k, "sl-") {
-						sc = append(sc, []string{"busy", "tmo", "garbage:chk", "garbage:noise", "lost"}[r.Intn(5)])
+						sc = append(sc, []string{"busy", "tmo", "garbage:chk", "garbage:noise", "lost", "strayhdr", "strayhdr", "stray:othercmd"}[r.Intn(8)])
 					} else {
 						sc = append(sc, c09Retry[r.Intn(len(c09Retry))])
 					}
@@ -128,10 +129,29 @@ func c09Exec(run *ev.Run, c ev.Case) {
 				if !strings.HasPrefix(k, "sl-") && r.Intn(12) == 0 {
 					sc = append(sc, "lost")
 				}
-				giveUp := len(sc) > 0 && sc[len(sc)-1] != "lost" && r.Intn(6) == 0
+				giveUp := len(sc) > 0 && (sc[len(sc)-1] != "lost" || strings.HasPrefix(k, "sl-")) && r.Intn(4) == 0
+				if k == "sl-newsession" {
+					sc, giveUp = nil, false
+				}
 				h.Cmds = append(h.Cmds, c09Cmd{Kind: k, Script: sc, GiveUp: giveUp})
 			}
 			c09History(run, h)
+			return
+		}
+		if b.H == -2 {
+			// session-less commands that end on a stray packet with a non-null session header, then more session-less traffic and a new handshake
+			idx := 0
+			for _, pre := range [][]string{{}, {"busy"}, {"garbage:noise"}, {"lost"}, {"busy", "tmo"}} {
+				for _, stray := range []string{"strayhdr", "stray:othercmd"} {
+					for _, after := range [][]c09Cmd{{{Kind: "sl-guid"}}, {{Kind: "sl-newsession"}}, {{Kind: "sl-authcaps", Script: []string{"busy"}}, {Kind: "sl-newsession"}, {Kind: "devid"}}} {
+						idx++
+						sc := append(append([]string(nil), pre...), stray)
+						cmds := []c09Cmd{{Kind: "devid"}, {Kind: []string{"sl-guid", "sl-authcaps"}[idx%2], Script: sc, GiveUp: true}}
+						cmds = append(cmds, after...)
+						c09History(run, c09Hist{Suite: idx % 9, Cmds: cmds})
+					}
+				}
+			}
 			return
 		}
 		if b.H == -1 {
@@ -216,6 +236,29 @@ func c09History(run *ev.Run, h c09Hist) {
 	nontrivial := false
 	sig := ""
 	for ci, cmd := range h.Cmds {
+		if cmd.Kind == "sl-newsession" {
+			// a fresh handshake on the same connection: every datagram is outside a session
+			before := se.T.Len()
+			ctx, cancel := se.LimitCtx(20)
+			ns, err := se.OpenSession(ctx, su)
+			cancel()
+			for si, s := range se.T.Since(before) {
+				hd := parseHdr(s.Bytes)
+				run.Event("datagrams-monitored", 1)
+				if !hd.OK || hd.SID != 0 || hd.Seq != 0 || hd.Enc || hd.Auth {
+					run.Violation("C09:sessionless-nonzero", fmt.Sprintf("command %d (new handshake) transmission %d: session setup datagram carries session ID %#x sequence %d flags enc=%v auth=%v", ci, si+1, hd.SID, hd.Seq, hd.Enc, hd.Auth), cs, nil)
+					return
+				}
+			}
+			if err != nil {
+				run.Violation("C09:rehandshake-failed", fmt.Sprintf("command %d: new handshake on the used connection failed: %v; %v", ci, err, problems(se.BMC)), cs, nil)
+				return
+			}
+			sess, inSession, nontrivial = ns, 0, true
+			bmcSID = se.BMC.Sess.BMCSID
+			sig += "ns;"
+			continue
+		}
 		call, okBody, minBody := c09Call(cmd.Kind, sess, se.ST)
 		cancelAt := 0
 		if cmd.GiveUp && len(cmd.Script) > 0 {
@@ -243,8 +286,8 @@ func c09History(run *ev.Run, h c09Hist) {
 				return
 			}
 			if sessionless {
-				if hd.SID != 0 || hd.Seq != 0 {
-					run.Violation("C09:sessionless-nonzero", fmt.Sprintf("%s: session-less datagram carries session ID %#x sequence %d", where, hd.SID, hd.Seq), cs, nil)
+				if hd.SID != 0 || hd.Seq != 0 || hd.Enc || hd.Auth {
+					run.Violation("C09:sessionless-nonzero", fmt.Sprintf("%s: session-less datagram carries session ID %#x sequence %d flags enc=%v auth=%v", where, hd.SID, hd.Seq, hd.Enc, hd.Auth), cs, nil)
 					return
 				}
 				continue
